@@ -25,6 +25,10 @@ type cfgStep struct {
 	setAuto bool
 	auto    bool
 	emfile  bool // the call happens inside a window of descriptor exhaustion
+	// order of the options inside the one call: 0 dirs then auto, 1 auto then
+	// dirs, 2 superseded options first (the last occurrence of an option wins)
+	order      int
+	shadowDirs []string
 }
 
 func (s cfgStep) String() string {
@@ -34,6 +38,19 @@ func (s cfgStep) String() string {
 	}
 	if s.setAuto {
 		parts = append(parts, fmt.Sprintf("WithAutoRefresh(%v)", s.auto))
+	}
+	if s.order >= 1 && len(parts) == 2 {
+		parts[0], parts[1] = parts[1], parts[0]
+	}
+	if s.order == 2 {
+		var pre []string
+		if s.setAuto {
+			pre = append(pre, fmt.Sprintf("WithAutoRefresh(%v)", !s.auto))
+		}
+		if s.setDirs {
+			pre = append(pre, fmt.Sprintf("WithSpecDirs(%v)", s.shadowDirs))
+		}
+		parts = append(pre, parts...)
 	}
 	out := "Configure(" + strings.Join(parts, ", ") + ")"
 	if s.emfile {
@@ -49,6 +66,19 @@ func (s cfgStep) options() []cdi.Option {
 	}
 	if s.setAuto {
 		o = append(o, cdi.WithAutoRefresh(s.auto))
+	}
+	if s.order >= 1 && len(o) == 2 {
+		o[0], o[1] = o[1], o[0]
+	}
+	if s.order == 2 {
+		var pre []cdi.Option
+		if s.setAuto {
+			pre = append(pre, cdi.WithAutoRefresh(!s.auto))
+		}
+		if s.setDirs {
+			pre = append(pre, cdi.WithSpecDirs(s.shadowDirs...))
+		}
+		o = append(pre, o...)
 	}
 	return o
 }
@@ -175,16 +205,23 @@ func c20(r *core.Run) {
 	var steps []cfgStep
 	for i := 0; i < nc; i++ {
 		var s cfgStep
-		switch src.Intn(3) {
-		case 0:
+		switch src.Intn(7) {
+		case 0, 1:
 			s.setDirs, s.dirs = true, drawDirs()
-		case 1:
+		case 2, 3:
 			s.setAuto, s.auto = true, src.Bool(1, 2)
-		default:
+		case 4, 5:
 			s.setDirs, s.dirs = true, drawDirs()
 			s.setAuto, s.auto = true, src.Bool(1, 2)
+		default: // Configure() without options: documented to do nothing
 		}
 		s.emfile = src.Bool(1, 6)
+		if src.Bool(1, 3) {
+			s.order = 1 + src.Intn(2)
+			if s.order == 2 {
+				s.shadowDirs = drawDirs()
+			}
+		}
 		steps = append(steps, s)
 		r.Notef("reconfigure: %s", s)
 	}
@@ -280,7 +317,15 @@ func c20(r *core.Run) {
 	e.w.Quiesce()
 	r.CheckHealth("quiescence")
 	histAtQuiescence := len(e.w.FS.Hist)
-	lastInWindow := steps[len(steps)-1].emfile
+	// Configure() without options is documented to do nothing: the last call
+	// that set anything up is the last one WITH options (or the creation).
+	lastInWindow := false
+	for i := len(steps) - 1; i >= 0; i-- {
+		if steps[i].setDirs || steps[i].setAuto {
+			lastInWindow = steps[i].emfile
+			break
+		}
+	}
 	r.Notef("final options: dirs %v auto %v (last Configure inside a descriptor shortage: %v)", curDirs, curAuto, lastInWindow)
 
 	finalDirs := make([]string, len(curDirs))
